@@ -158,8 +158,12 @@ func settle() {
 	}
 }
 
-func scaleYAML(r0 int, tokens map[string][]tok, withProbe bool) AFile {
+func scaleYAML(r0 int, tokens map[string][]tok, withProbe bool, gated bool) AFile {
 	w := AProc{Name: "w", Replicas: r0}
+	if gated {
+		// every replica of w waits for u to complete; u runs until it is stopped
+		w.Deps = []KV{{"u", "process_completed"}}
+	}
 	for _, f := range []string{"command", "working_dir", "log_location", "description"} {
 		if ts, ok := tokens[f]; ok {
 			w.Opts = append(w.Opts, KV{f, renderTpl(ts)})
@@ -211,7 +215,8 @@ func ScaleMain(args []string) {
 				tokens["probe.exec.command"] = []tok{{"lit", "check "}, {"var", "PC_REPLICA_NUM"}}
 			}
 			r0 := []int{1, 1, 2, 3}[r.Intn(4)]
-			af := scaleYAML(r0, tokens, withProbe)
+			gated := r.Intn(4) == 0
+			af := scaleYAML(r0, tokens, withProbe, gated)
 			path := writeFile(dir, "scale.yaml", af.Render())
 			project, err := load([]string{path})
 			if err != nil {
@@ -269,7 +274,7 @@ func ScaleMain(args []string) {
 				// what a fresh load with replicas: n gives
 				fresh := []map[string]any{}
 				if serr == nil && n >= 1 {
-					af2 := scaleYAML(n, tokens, withProbe)
+					af2 := scaleYAML(n, tokens, withProbe, gated)
 					p2 := writeFile(dir, "fresh.yaml", af2.Render())
 					if pr2, e2 := load([]string{p2}); e2 == nil {
 						names := []string{}
@@ -286,10 +291,19 @@ func ScaleMain(args []string) {
 				known := name == "w" || strings.HasPrefix(name, "w-") && name != "w-7777"
 				rec.put(map[string]any{"kind": "scale", "id": fmt.Sprintf("scale-%d-%d-%d", *seed, k, s), "name": name, "n": n, "known": known,
 					"err": serr != nil, "base": "w", "cur": cur, "tokens": jtok, "gvars": []KV{{"GV", "gval"}},
-					"before": before, "after": after, "fresh": fresh, "someFinished": someFinish})
+					"before": before, "after": after, "fresh": fresh, "someFinished": someFinish, "gated": gated})
 				if serr == nil && n >= 1 {
 					cur = n
 				}
+			}
+			if gated {
+				// release the gate: u completes, now every current replica of w is launched (and only now)
+				_ = lr.runner.StopProcess("u")
+				settle()
+				time.Sleep(10 * time.Millisecond)
+				settle()
+				rec.put(map[string]any{"kind": "scalegate", "id": fmt.Sprintf("scalegate-%d-%d", *seed, k), "base": "w", "gate": "u", "n": cur,
+					"final": lr.snapshot(nil)})
 			}
 			lr.stop()
 		}
@@ -589,10 +603,26 @@ func updateRecords(rec *recWriter, r *rand.Rand, dir string, seed int64, tier st
 			}
 			if r.Intn(2) == 0 {
 				nm := fmt.Sprintf("n%d_%d", k, step)
-				next = append(next, updProc{name: nm, opts: map[string]string{"command": "run " + nm}})
+				nu := updProc{name: nm, opts: map[string]string{"command": "run " + nm}}
+				if r.Intn(2) == 0 {
+					// the added process waits for anchor (which keeps running) to complete: it must stay pending
+					nu.deps = []KV{{"anchor", "process_completed"}}
+				}
+				next = append(next, nu)
 				changes = append(changes, map[string]any{"name": nm, "kind": "added", "fields": []string{}})
 			}
 			changes = append(changes, map[string]any{"name": "anchor", "kind": "same", "fields": []string{}})
+			gatedSet := map[string]bool{}
+			for _, u := range next {
+				for _, d := range u.deps {
+					if d[0] == "anchor" && d[1] == "process_completed" {
+						gatedSet[u.name] = true
+					}
+				}
+			}
+			for _, ch := range changes {
+				ch["gated"] = gatedSet[ch["name"].(string)]
+			}
 			p2 := writeFile(dir, fmt.Sprintf("upd%d.yaml", step+1), renderUpd(next, tgt))
 			project2, err := load([]string{p2})
 			if err != nil {
